@@ -1,0 +1,31 @@
+//go:build verif
+
+package smtp
+
+import (
+	"crypto/tls"
+	"net"
+
+	"github.com/foxcpp/maddy/framework/dns"
+)
+
+// Accessors for the X13 extension check (message preparation, trace fields).
+// Add-only: nothing here is compiled without the "verif" build tag.
+
+// VerifPrepareServe serves the endpoint on a listener supplied by the harness.
+func (endp *Endpoint) VerifPrepareServe(l net.Listener) error {
+	return endp.serv.Serve(l)
+}
+
+// VerifPrepareSetTLS gives the endpoint a TLS configuration (STARTTLS) without certificate files.
+func (endp *Endpoint) VerifPrepareSetTLS(c *tls.Config) {
+	endp.serv.TLSConfig = c
+}
+
+// VerifPrepareSetResolver replaces the resolver used for the reverse lookup of the client address.
+func (endp *Endpoint) VerifPrepareSetResolver(r dns.Resolver) {
+	endp.resolver = r
+	if endp.pipeline != nil {
+		endp.pipeline.Resolver = r
+	}
+}
